@@ -13,8 +13,11 @@
 #include <sys/stat.h>
 #include <set>
 
+extern "C" int __llvm_profile_write_file(void) __attribute__((weak)); // present only in the coverage build
+
 namespace sim {
 
+static inline void flush_profile() { if (__llvm_profile_write_file) __llvm_profile_write_file(); }
 static Shared g_shared_dummy;
 Shared *g_shared = &g_shared_dummy;
 
@@ -136,6 +139,7 @@ struct Driver
                 sh->op_index = r.v.op_index;
             }
             sh->phase = 2;
+            flush_profile();
             _exit(0);
         }
         int status = 0;
@@ -368,6 +372,7 @@ struct Driver
         }
         emit_known(out); emit_stats(out, st);
         fprintf(out, "E\n"); fflush(out);
+        flush_profile();
         _exit(0);
     }
 
